@@ -186,9 +186,12 @@ def build_model(p):
     return exe
 
 
-def run_lines(cmd, lines, shards=None, timeout=1200, env=None):
+def run_lines(cmd, lines, shards=None, timeout=1200, env=None, max_bad=None):
     """Feed `lines` to `cmd` (list), sharded over processes; returns output lines
-    in order.  One output line per input line is required."""
+    in order.  One output line per input line is required.  With `max_bad`, a shard
+    that has produced that many HANG/CRASH results answers "SKIPPED" for its remaining
+    cases (each hang costs a watchdog period: a change that makes thousands of cases
+    hang must still let the check finish and report the first ones)."""
     if not lines:
         return []
     if any(not l.strip() or "\n" in l for l in lines):
@@ -203,6 +206,9 @@ def run_lines(cmd, lines, shards=None, timeout=1200, env=None):
         guard = 0
         while len(res) < len(ch) and guard < len(ch) + 2:
             guard += 1
+            if max_bad is not None and sum(1 for r in res if r.startswith("HANG") or r.startswith("CRASH")) >= max_bad:
+                res.extend(["SKIPPED"] * (len(ch) - len(res)))
+                break
             rest = ch[len(res):]
             try:
                 p = sh(cmd, input="\n".join(rest) + "\n", timeout=timeout, env=env, limit_mem=True)
